@@ -630,6 +630,33 @@ fn run_path(t: &Tuple, path: &[Op]) -> Result<Vec<Failure>, String> {
     Ok(vec![])
 }
 
+/// The real documents around a failing transition. lopdf draws IVs, salts and paddings at random when it
+/// encrypts, so a failure is a deterministic function of these documents, not of the path that led to them.
+struct Artefact<'a> {
+    abs: Abs,
+    reloaded: bool,
+    op: Op,
+    pre: &'a Document,
+    /// result of a successful `encrypt` (the only randomised transition)
+    post: Option<&'a Document>,
+}
+
+/// Re-evaluate a failing transition on the captured documents.
+fn judge(t: &Tuple, state: &EncryptionState, a: &Artefact) -> Vec<Failure> {
+    match a.post {
+        Some(post) if a.op == Op::Encrypt && !a.abs.encrypted() => check_encrypted(t, post),
+        _ => apply_op(t, state, &Node { abs: a.abs, reloaded: a.reloaded, doc: a.pre.clone(), path: vec![] }, a.op).failures,
+    }
+}
+
+fn invariants(f: &[Failure]) -> BTreeSet<String> {
+    f.iter().map(|x| x.inv.to_string()).collect()
+}
+
+fn abs_from_name(s: &str) -> Abs {
+    [Abs::Plain, Abs::EncMem, Abs::EncReloaded, Abs::DecUser, Abs::DecOwner].into_iter().find(|a| a.name() == s).unwrap_or(Abs::Plain)
+}
+
 #[derive(Default)]
 struct Stats {
     states: u64,
@@ -671,24 +698,36 @@ fn explore(run: &Run, t: &Tuple) -> Stats {
                 if step.failures.is_empty() {
                     st.traces += 1;
                 } else {
-                    // replay discipline: the failing path is re-executed twice from its descriptor
+                    // replay discipline: the failing transition is re-evaluated twice on the captured documents
+                    // (the state before it and, for encrypt, the encrypted document lopdf produced). Re-running
+                    // the path would draw new random salts/IVs; a failure that depends on them is still a
+                    // violation and the captured document is its witness.
+                    let produced = op == Op::Encrypt && !node.abs.encrypted() && step.outcome == "Ok";
+                    let art = Artefact { abs: node.abs, reloaded: node.reloaded, op, pre: &node.doc, post: if produced { Some(&step.doc) } else { None } };
                     let sig = signature(&step.failures);
+                    let mut findings_stable = true;
                     for _ in 0..2 {
-                        match run_path(t, &path) {
-                            Ok(f) if signature(&f) == sig => {}
-                            other => {
-                                eprintln!(
-                                    "MACHINERY: failing case does not replay identically: {} first {:?} replay {:?}",
-                                    case_json(t, &path)["path"],
-                                    sig,
-                                    other.map(|f| signature(&f))
-                                );
-                                std::process::exit(3);
-                            }
+                        let again = judge(t, &state, &art);
+                        if invariants(&again) != invariants(&step.failures) {
+                            eprintln!(
+                                "MACHINERY: the same captured documents give different outcomes: {} first {:?} again {:?}",
+                                case_json(t, &path)["path"],
+                                sig,
+                                signature(&again)
+                            );
+                            std::process::exit(3);
                         }
+                        // the classifier encrypts afresh for its neutralised variants: if its answer is not
+                        // stable the case stays unclassified
+                        findings_stable &= signature(&again) == sig;
                     }
                     for f in &step.failures {
-                        run.fail(f.finding, case_json(t, &path), &format!("[{}] after {}: {}", f.inv, op.name(), f.detail), expected_text(f.inv));
+                        let mut cj = case_json(t, &path);
+                        cj["artefact"] = json!({
+                            "abstract_state": node.abs.name(), "reloaded": node.reloaded, "transition": op.name(),
+                            "before": doc_to_json(art.pre), "after_encrypt": art.post.map(doc_to_json),
+                        });
+                        run.fail(if findings_stable { f.finding } else { None }, cj, &format!("[{}] after {}: {}", f.inv, op.name(), f.detail), expected_text(f.inv));
                     }
                 }
                 if step.failures.iter().any(|f| f.hard) {
@@ -801,7 +840,7 @@ fn main() {
     run.assume("passwords are judged by the standard's equivalence: first 32 PDFDocEncoding bytes (R <= 4), SASLprep/UTF-8 truncated to 127 bytes (R >= 5); a password with characters outside PDFDocEncoding equals only itself");
     run.assume("an empty owner password next to a non-empty user password (R <= 4) means 'no owner password': decrypt(\"\") may either open the document correctly or be rejected");
     run.assume("the loader may or may not auto-decrypt when the empty password is the user or owner password; both are accepted, garbage or a failing load is not");
-    run.assume("IVs, salts and U padding are random: ciphertext is never compared, only decrypted content; every failing path is re-executed twice and must fail the same invariants");
+    run.assume("IVs, salts and U padding are random: ciphertext is never compared, only decrypted content; the documents around every failing transition are captured and the transition is re-evaluated twice on them (same invariants required)");
     run.assume("object numbers <= 65538 in saved documents (writer cost is linear in max_id); Identity-filtered objects are not required to stay plaintext (the statement does not say so)");
     let (list, rest) = specs(&run);
     let total = Mutex::new(Stats::default());
@@ -862,17 +901,51 @@ fn replay(run: &Run, path: &std::path::Path) -> ! {
     let case = vharness::run::read_replay(path);
     let t = tuple_from_case(&case);
     let ops: Vec<Op> = case["path"].as_array().map(|a| a.iter().filter_map(|s| s.as_str().and_then(Op::from_name)).collect()).unwrap_or_default();
-    let a = run_path(&t, &ops);
-    let b = run_path(&t, &ops);
-    match (&a, &b) {
-        (Ok(x), Ok(y)) if signature(x) == signature(y) => {}
-        _ => {
-            eprintln!("MACHINERY: replay not deterministic or path not executable: {:?} vs {:?}", a.map(|f| signature(&f)), b.map(|f| signature(&f)));
+    println!("path: {}", case["path"]);
+    let f = if case["artefact"].is_object() {
+        // judge the captured documents (lopdf is not asked to encrypt again)
+        let av = &case["artefact"];
+        let state = menu::build_state(&t.cfg, &t.plain, &t.user, &t.owner, t.perms).unwrap_or_else(|e| {
+            eprintln!("MACHINERY: cannot build the encryption state: {}", e);
+            std::process::exit(3);
+        });
+        let pre = doc_from_json(&av["before"]);
+        let post = if av["after_encrypt"].is_object() { Some(doc_from_json(&av["after_encrypt"])) } else { None };
+        let art = Artefact {
+            abs: abs_from_name(av["abstract_state"].as_str().unwrap_or("")),
+            reloaded: av["reloaded"].as_bool().unwrap_or(false),
+            op: av["transition"].as_str().and_then(Op::from_name).unwrap_or(Op::Encrypt),
+            pre: &pre,
+            post: post.as_ref(),
+        };
+        let (a, b) = (judge(&t, &state, &art), judge(&t, &state, &art));
+        if invariants(&a) != invariants(&b) {
+            eprintln!("MACHINERY: the same captured documents give different outcomes: {:?} vs {:?}", signature(&a), signature(&b));
             std::process::exit(3);
         }
-    }
-    let f = a.unwrap();
-    println!("path: {}", case["path"]);
+        println!("(judged on the captured documents of the failing transition)");
+        a
+    } else {
+        // no captured documents: execute the path afresh; lopdf's random salts/IVs may differ between runs
+        let a = run_path(&t, &ops);
+        let b = run_path(&t, &ops);
+        match (a, b) {
+            (Ok(x), Ok(y)) => {
+                if invariants(&x) != invariants(&y) {
+                    println!("note: the two executions differ ({:?} vs {:?}): the outcome depends on lopdf's random salts/IVs", signature(&x), signature(&y));
+                }
+                if x.is_empty() {
+                    y
+                } else {
+                    x
+                }
+            }
+            (x, y) => {
+                eprintln!("MACHINERY: path not executable: {:?} / {:?}", x.err(), y.err());
+                std::process::exit(3);
+            }
+        }
+    };
     if f.is_empty() {
         println!("observed: every invariant holds after the last transition");
     }
